@@ -8,7 +8,7 @@ prop=${2:-$(python3 -c "import json;print(json.load(open('$dir/meta.json'))['pro
 [ -z "$prop" ] && prop=$(echo $id | sed 's/S-\(C[0-9]*\)-.*/\1/')
 snap=/tmp/vsnap-$id; wt=/tmp/vrepo-$id
 rm -rf $snap; mkdir -p $snap
-rsync -a --exclude .git --exclude work --exclude evidence /verif/ $snap/
+rsync -a --exclude .git --exclude work --exclude evidence ${SNAP_SRC:-/verif}/ $snap/
 mkdir -p $snap/work $snap/evidence
 git -C /repo worktree add -q --detach $wt HEAD || exit 2
 git -C $wt apply $dir/patch.diff || exit 2
